@@ -279,6 +279,31 @@ def gen():
     bl = T.body_nodoc(ln)
     if not (len(bl) == 1 and isinstance(bl[0], ast.Return) and ast.unparse(bl[0].value) == "len(self._elem)"):
         T.fail(DC, ln, "len(corner container) is not len(self._elem)")
+    # clear(): which fields are reset (to the empty list / an empty dict); a field that is not reset is kept
+    def resets(qual, fields):
+        fn = fdef(tree, qual, DC)
+        parts.append((qual, T.sha(src, fn)))
+        got = set()
+        for st in T.body_nodoc(fn):
+            v = _assign(st)
+            tg = ast.unparse(st.targets[0]) if v is not None else None
+            if v is None or not tg.startswith("self.") or tg[5:] not in fields:
+                T.fail(DC, st, "%s: unexpected statement" % qual)
+            empty_list = (isinstance(v, ast.List) and not v.elts) or (_is_call(v, "list", 0))
+            empty_dict = (isinstance(v, ast.Dict) and not v.keys) or (_is_call(v, "dict", 0))
+            if not ((tg[5:] == "_attr" and empty_dict) or (tg[5:] != "_attr" and empty_list)):
+                T.fail(DC, st, "%s: %s is not reset to an empty container" % (qual, tg))
+            got.add(tg[5:])
+        return got
+    rc = resets("CornerDataContainer.clear", ("_elem", "_adj", "_attr"))
+    defs.append("(* CornerDataContainer.clear(): the (_elem, _adj) lists afterwards; are the attributes dropped *)\n"
+                "Definition corner_clear (elem adj : list Z) : list Z * list Z := (%s, %s).\n"
+                "Definition corner_clear_attrs : bool := %s."
+                % ("[]" if "_elem" in rc else "elem", "[]" if "_adj" in rc else "adj", "true" if "_attr" in rc else "false"))
+    rd = resets("DataContainer.clear", ("_data", "_attr"))
+    defs.append("(* DataContainer.clear(): the element list afterwards; are the attributes dropped *)\n"
+                "Definition data_clear {A : Type} (d : list A) : list A := %s.\n"
+                "Definition data_clear_attrs : bool := %s." % ("[]" if "_data" in rd else "d", "true" if "_attr" in rd else "false"))
     em = fdef(tree, "DataContainer.empty", DC)
     bl = T.body_nodoc(em)
     if not (len(bl) == 1 and isinstance(bl[0], ast.Return) and ast.unparse(bl[0].value) == "not self._data"):
